@@ -102,13 +102,14 @@ var trUnits = []trUnit{
 		structs: map[string][]string{},
 		funcs:   []string{"setOption", "DeserializeOptions"}},
 	{ns: "Decode", pkgDir: "internal/server/handlers", panics: true,
-		structs: map[string][]string{"baseHandler": {}},
+		structs: map[string][]string{"baseHandler": {"writeBuf"}},
+		bufVars: []string{"h.writeBuf"},
 		skip:    []string{"h.send", "h.sendln", "context.WithCancel"},
 		record: map[string]trRecord{
 			"h.handleCommandCb": {field: "started", owner: "baseHandler", types: []string{"GoLContext", "Int", "(List GoString)", "GoString"}, drop: []int{0}},
 			"h.handleOptions":   {field: "options", owner: "baseHandler", types: []string{"(GoMap GoString GoString)"}}},
 		extern:  map[string]trExtern{"config.DeserializeOptions": {lean: "Dtail.Gen.Config.DeserializeOptions", nResults: 3, canPanic: true}},
-		funcs:   []string{"baseHandler.handleProtocolVersion", "baseHandler.handleBase64", "baseHandler.handleCommand"}},
+		funcs:   []string{"baseHandler.handleProtocolVersion", "baseHandler.handleBase64", "baseHandler.handleCommand", "baseHandler.Write"}},
 	{ns: "Auth", pkgDir: "internal/server", panics: true,
 		structs: map[string][]string{"Server": {}},
 		subst: map[string]string{"c.User()": "c.user", "c.RemoteAddr().String()": "c.remoteAddr",
@@ -758,6 +759,11 @@ func (f *trFn) guards(e ast.Expr) []string {
 		}
 		for _, a := range v.Args {
 			out = append(out, f.guards(a)...)
+		}
+		if src(v.Fun) == "make" && len(v.Args) == 2 {
+			if _, isChan := v.Args[0].(*ast.ChanType); isChan && f.p.unit.chanTypes["both"] == "GoQueue" {
+				out = append(out, "(goMakeChanOk "+f.expr(v.Args[1])+")") // makechan: size out of range
+			}
 		}
 		return out
 	}
@@ -2884,6 +2890,12 @@ func (p *trPkg) computeCanPanic() {
 				}
 			case *ast.SliceExpr:
 				found = true
+			case *ast.CallExpr:
+				if src(v.Fun) == "make" && len(v.Args) == 2 {
+					if _, isChan := v.Args[0].(*ast.ChanType); isChan && p.unit.chanTypes["both"] == "GoQueue" {
+						found = true // makechan: size out of range
+					}
+				}
 			case *ast.SendStmt:
 				if contains(p.unit.queues, src(v.Chan)) {
 					found = true // may block for ever
